@@ -295,6 +295,7 @@ pub fn run(seed: u64, count: usize, outdir: &str, jit: bool) -> std::io::Result<
             p_const_operand: *r.pick(&[0.15, 0.35]),
             p_special_const: 0.1,
             choice_heavy, no_hash: true, const_roots: true,
+            choice_chain: if r.chance(0.3) { *r.pick(&[5, 30, 100, 220]) } else { 0 },
         };
         let dag = gen_dag(&mut r, &cfg);
         let nvars = 3 + dag.vs.len();
